@@ -649,6 +649,10 @@ struct decode_traits<T,
                 return result_type{jsoncons::unexpect, ec, cursor.line(), cursor.column()}; 
             }
         }
+        if (JSONCONS_UNLIKELY(ec)) // the input ended right after the opening of the object
+        {
+            return result_type{jsoncons::unexpect, ec, cursor.line(), cursor.column()}; 
+        }
         return result_type{std::move(val)};
     }
 
